@@ -16,6 +16,7 @@ import (
 // paths at a tape-chosen (thorough: swept) point, with the terminal's mode
 // table compared before start-up and after the exit.
 type exitWorld struct {
+	stall int // 1/stall of scheduling steps freeze the chosen application task
 	s    *simrt.Sched
 	res  *RunResult
 	env  *sessionEnv
@@ -122,7 +123,7 @@ func (w *exitWorld) Describe() any {
 	exit := []string{"Close() from the main task", fmt.Sprintf("SIGTERM before scheduler step %d", w.sigStep), fmt.Sprintf("panic at the %d-th handleSequence", w.panicAt)}[w.exitKind]
 	return map[string]any{"size": fmt.Sprintf("%dx%d", w.rows, w.cols), "caps": capsString(w.caps), "plan": plan, "exit": exit,
 		"initial": fmt.Sprintf("cursor-style=%d app-id=%q kitty-stack=%v flags=%d modes-set=%v", w.initStyle, w.initApp, w.initKitty, w.initFlags, w.initSet),
-		"options": fmt.Sprintf("%+v", w.opts), "user_input": w.userIn}
+		"options": fmt.Sprintf("%+v", w.opts), "user_input": w.userIn, "stall_1_in": w.stall}
 }
 
 func (w *exitWorld) Build(t *simrt.Tape, spec RunSpec) {
@@ -189,6 +190,9 @@ func (w *exitWorld) Build(t *simrt.Tape, spec RunSpec) {
 		w.sigStep = 1 + t.Draw(300)
 	}
 	w.panicAt = 1 + t.Draw(45)
+	// stall fault: the application's threads may be frozen between two
+	// library steps (inside Close, Suspend, Resume, Render) for up to 70 ms
+	w.stall = []int{0, 0, 400, 80}[t.Draw(4)]
 	if v, ok := spec.Opts["sweepk"]; ok && v != "" {
 		// the exit point is swept along the session
 		k := optInt(spec.Opts, "sweepk", 0)
@@ -204,6 +208,8 @@ func (w *exitWorld) Build(t *simrt.Tape, spec RunSpec) {
 func (w *exitWorld) Start(s *simrt.Sched, res *RunResult) {
 	w.s, w.res = s, res
 	s.MaxSteps = 150000
+	s.StallOneIn, s.StallMax = w.stall, 6
+	s.StallOK = func(t *simrt.Task) bool { return t.Name != "terminal" && t.Name != "wire" }
 	w.env = newSessionEnv(s, res, w.rows, w.cols, w.caps)
 	t := w.env.term
 	t.CursorStyle = w.initStyle
@@ -465,6 +471,7 @@ func diffModes(want, got simterm.ModeTable) string {
 }
 
 func (w *exitWorld) Finish(s *simrt.Sched, res *RunResult) {
+	res.FaultN("task-stalled", s.Stalls)
 	res.Nontrivial = len(w.plan) > 0 || w.exitKind != 0
 	res.EndState = fmt.Sprintf("%s exit=%d self=%v panicked=%v bits=%d", s.End, w.exitKind, w.closedSelf, w.panicked, w.bits)
 	for _, t := range s.Panics() {
